@@ -382,6 +382,9 @@ func protoAlphabet(role string, which string) []*protoEvent {
 		add(inEv("Logon(ok,hb=30)", "A", true, true, "", true, lg("98=0", "108=30")))
 		add(inEv("Logon(ok,hb=5)", "A", true, true, "", true, lg("98=0", "108=5")))
 		add(inEv("Logon(ok,seq-ahead,hb=30)", "A", true, true, "", true, func(w *world) []byte { w.nextIn += 3; return w.msg("A", "98=0", "108=30") }))
+		// the peer sets ResetSeqNumFlag: whatever the session makes of it, its own numbering stays consecutive (C05)
+		// and everything else about a Logon holds
+		add(inEv("Logon(ok,reset=Y,hb=30)", "A", true, true, "", true, lg("98=0", "108=30", "141=Y")))
 	}
 	if which == "C06" && acc {
 		// another counterparty pair: accepted like any Logon while waiting for one (its identifiers are then the
